@@ -181,6 +181,10 @@ class PropCheck(object):
             return None
         return 'model=%s impl=%s' % (model_out[:400], impl_out[:400])
 
+    def extra_evidence(self):
+        """further measured numbers for the evidence file"""
+        return {}
+
     def extra_obligations(self):
         """additional named obligations discharged outside Lean theorems (none by default)."""
         return []
@@ -629,6 +633,7 @@ def run_check(check, tier, seed):
             'tables_regenerated_differ_from_committed': bool(tables_changed),
             'broken': [b[0] for b in broken],
             'known_findings_reproduced': sorted(known_hit),
+            'extra': check.extra_evidence(),
         },
         'assumptions': list(check.assumptions),
         'wall_s': round(wall, 2),
